@@ -341,7 +341,7 @@ func (x *runner) judgeLoad(sp Spec, kind string, res *loadResult, must map[uint6
 			}
 			w2["missing_id"] = uint64(math.MaxUint64)
 			w2["minimal"] = x.minOnce(key, kind, []uint64{math.MaxUint64}, "missing")
-			r.Violation(key, fmt.Sprintf("the %s item with id 2^64-1 is saved, not deleted, and not returned by %s (every other live item is)", strings.TrimSuffix(kind, "s"), res.API), w2)
+			r.Violation(key, fmt.Sprintf("the %s item with id 2^64-1 is saved, not deleted, and not returned by %s", strings.TrimSuffix(kind, "s"), res.API), w2)
 		} else {
 			rest = append(rest, id)
 		}
